@@ -115,7 +115,15 @@ fn chunks<'a>(input: &'a [u8], ends: &[usize]) -> Vec<&'a [u8]> {
 struct Frag<'a>(&'a str);
 impl std::fmt::Display for Frag<'_> {
     fn fmt(&self, f: &mut std::fmt::Formatter<'_>) -> std::fmt::Result {
-        f.write_str(self.0)
+        // chunks of odd length go out character by character (the `write_char` path)
+        if self.0.len() % 2 == 1 {
+            for c in self.0.chars() {
+                std::fmt::Write::write_char(f, c)?;
+            }
+            Ok(())
+        } else {
+            f.write_str(self.0)
+        }
     }
 }
 
